@@ -84,7 +84,7 @@ var roleFnWorld *core.World
 
 // siteException looks a '<function> -> <callee>' exception up: by the function's own key, by its role, or - for code
 // moved into an unexported helper - by the key of every function the helper is (virtually) inlined into.
-func siteException(w *core.World, f *ssa.Function, callee string) (string, bool) {
+func siteException(w *core.World, f *ssa.Function, callee string, scope map[*ssa.Function]bool) (string, bool) {
 	if reason, ok := collabErrorExceptions[core.FuncKey(f)+" -> "+callee]; ok {
 		return reason, true
 	}
@@ -109,6 +109,9 @@ func siteException(w *core.World, f *ssa.Function, callee string) (string, bool)
 	if core.IsInlined(f) {
 		reason := ""
 		for _, h := range core.Roots(f) {
+			if scope != nil && !scope[h] {
+				continue // the helper is shared with a function the rule does not judge
+			}
 			r2, ok := collabErrorExceptions[core.FuncKey(h)+" -> "+callee]
 			if !ok {
 				if role, isRole := roleFnCache[h]; isRole {
@@ -497,7 +500,7 @@ func c07(w *core.World, r *core.Report) {
 			key := core.CalleeKey(c)
 			seenKey[key]++
 			site := core.Site(f, "call %s#%d", key, seenKey[key])
-			if reason, ok := siteException(w, f, key); ok {
+			if reason, ok := siteException(w, f, key, scope); ok {
 				r.Info("COLLAB-ERRORS", site, w.InstrPos(c), "frozen exception: "+reason)
 				continue
 			}
